@@ -200,3 +200,49 @@ func verifH_C09_address_nodes() {
 	verifAssert(len(seen) == len(want), "nothing-else-is-reported")
 	verifReach("end")
 }
+
+// H-C09-prolly-leaf-adaptive: as H-C09-prolly-leaf for a table whose only out-of-line values are adaptive ones (the
+// default for new tables): value tuples (BIGINT, adaptive TEXT, BIGINT) with no classic address column at all.
+func verifH_C09_prolly_leaf_adaptive() {
+	verifPanicIsViolation()
+	verifUnwind(1024)
+	bp := pool.NewBuffPool()
+	valDesc := val.NewTupleDescriptor(
+		val.Type{Enc: val.Int64Enc, Nullable: true},
+		val.Type{Enc: val.StringAdaptiveEnc, Nullable: true},
+		val.Type{Enc: val.Int64Enc, Nullable: true})
+	n := verifConcrete(verifNondetIntRange("rows", 1, verifBoundLeafRows), 4)
+	var keys, values [][]byte
+	var want []hash.Hash
+	for i := 0; i < n; i++ {
+		tag := string(rune('0' + i))
+		fields := make([][]byte, 3)
+		if verifNondetBool("int-a-set-" + tag) {
+			fields[0] = verifNondetBytes("int-a-"+tag, 8)
+		}
+		switch verifConcrete(verifNondetIntRange("text-"+tag, 0, 2), 4) {
+		case 1:
+			fields[1] = append([]byte{0}, verifNondetBytes("text-inline-"+tag, 2)...)
+		case 2:
+			l := verifNondetU8("text-length-" + tag)
+			verifAssume(verifAnd(l >= 1, l < 0x80))
+			h := verifNondetHash("text-addr-" + tag)
+			fields[1] = append([]byte{l}, h[:]...)
+			want = append(want, h)
+		}
+		if verifNondetBool("int-b-set-" + tag) {
+			fields[2] = verifNondetBytes("int-b-"+tag, 8)
+		}
+		values = append(values, val.NewTuple(bp, fields...))
+		keys = append(keys, val.NewTuple(bp, []byte{byte(i), 0, 0, 0, 0, 0, 0, 0}))
+	}
+	msg := NewProllyMapSerializer(valDesc, bp).Serialize(keys, values, nil, 0)
+	seen, err := verifWalkAll(msg)
+	verifAssert(err == nil, "walk-ok")
+	for _, h := range want {
+		verifAssert(verifReported(seen, h), "every-address-of-the-rows-is-reported")
+	}
+	verifAssert(len(seen) == len(want), "nothing-else-is-reported")
+	verifCover(len(want) > 0, "some-address")
+	verifReach("end")
+}
